@@ -47,6 +47,9 @@ impl Decoder for Socks5InitialRequestDecoder {
     type Error = anyhow::Error;
 
     fn decode(&mut self, src: &mut BytesMut) -> Result<Option<Self::Item>> {
+        if src.remaining() < 2 || src.remaining() < 2 + src[1] as usize {
+            return Ok(None);
+        }
         let version = src.get_u8();
         if VERSION != version {
             bail!("unsupported version: {}", version);
@@ -68,6 +71,10 @@ impl Decoder for Socks5CommandRequestDecoder {
     type Error = anyhow::Error;
 
     fn decode(&mut self, src: &mut BytesMut) -> Result<Option<Self::Item>> {
+        match address::try_decode_at(src, 3)? {
+            Some(len) if src.remaining() >= 3 + len => {}
+            _ => return Ok(None),
+        }
         let version = src.get_u8();
         if VERSION != version {
             bail!("unsupported version: {}", version);
@@ -87,6 +94,9 @@ impl Decoder for Socks5InitialResponseDecoder {
     type Error = anyhow::Error;
 
     fn decode(&mut self, src: &mut BytesMut) -> Result<Option<Self::Item>, Self::Error> {
+        if src.remaining() < 2 {
+            return Ok(None);
+        }
         let version = src.get_u8();
         if VERSION != version {
             bail!("unsupported version: {}", version);
@@ -103,6 +113,10 @@ impl Decoder for Socks5CommandResponseDecoder {
     type Error = anyhow::Error;
 
     fn decode(&mut self, src: &mut BytesMut) -> Result<Option<Self::Item>> {
+        match address::try_decode_at(src, 3)? {
+            Some(len) if src.remaining() >= 3 + len => {}
+            _ => return Ok(None),
+        }
         let version = src.get_u8();
         if VERSION != version {
             bail!("unsupported version: {}", version);
